@@ -696,4 +696,30 @@ theorem out_fixup_counterexample : ¬ C04_inplace_full := by
   revert this
   decide +kernel
 
+/-! ### reductions of multiply / divide: how many factors -/
+
+/-- **reduce count, what holds.**  With an explicit `axis` keyword, or on a one-dimensional
+    array, the power the unit is raised to counts exactly the numbers NumPy multiplies. -/
+theorem reduce_count_partial (shape : List Nat) (axisKw : Option Nat)
+    (guard : axisKw.isSome ∨ shape.length = 1) : reduceCount shape axisKw = reduceCountRef shape axisKw := by
+  rcases guard with h | h
+  · cases axisKw with
+    | none => cases h
+    | some a => rfl
+  · cases axisKw with
+    | some a => rfl
+    | none =>
+      match shape, h with
+      | [n], _ => simp [reduceCount, reduceCountRef]
+
+def C04_reduce_count_full : Prop := ∀ shape axisKw, reduceCount shape axisKw = reduceCountRef shape axisKw
+
+/-- `np.multiply.reduce(x)` on a 3×3 array reduces along axis 0 (three numbers each) but the unit
+    is raised to the 9th power -/
+theorem reduce_count_counterexample : ¬ C04_reduce_count_full := by
+  intro h
+  have := h [3, 3] none
+  revert this
+  decide
+
 end Unyt.C04
